@@ -71,8 +71,9 @@ def paths(fn):
                     except _Ret as r:
                         out.append((cond + [("" if taken else "not ") + unparse(st.test)], r.v))
                 return
-            elif isinstance(st, ast.For) and isinstance(st.target, ast.Name) and unparse(st.iter).replace(" ", "") in ("range(2)", "range(0,2)"):
-                for i in range(2):
+            elif isinstance(st, ast.For) and isinstance(st.target, ast.Name) and isinstance(st.iter, ast.Call) and unparse(st.iter.func) == "range" \
+                    and all(isinstance(a, ast.Constant) and isinstance(a.value, int) for a in st.iter.args) and not st.iter.keywords:
+                for i in range(*[a.value for a in st.iter.args]):
                     env[st.target.id] = i
                     run(st.body, env, cond)
             elif isinstance(st, ast.Return):
